@@ -25,6 +25,7 @@ type Obligation struct {
 	Note   string
 	Failed string // non-empty: tool-limit failure produced without solving
 	Result *SolveResult
+	replayOK bool
 }
 
 type unsupported struct{ msg string }
@@ -46,6 +47,7 @@ type Frame struct {
 	site    string // call-site label for inlined frames
 	closure *Closure
 	top     *Frame
+	modRegions []modRegion
 }
 
 type retRec struct {
@@ -72,6 +74,7 @@ type Exec struct {
 	callOrd   map[string]int
 	ghostInit map[string]*Term
 	nameCount map[string]int
+	pendingRegions []modRegion
 }
 
 func newExec(w *World, specs *SpecDB) *Exec {
@@ -94,6 +97,20 @@ func (x *Exec) assume(st *State, fact *Term) {
 		return
 	}
 	x.facts = append(x.facts, Implies(st.pc, fact))
+}
+
+// assumePC strengthens the path condition with q. Quantified conjuncts are named by a fresh
+// Boolean (b, with the fact b => q) so that path conditions stay quantifier-free.
+func (x *Exec) assumePC(st *State, q *Term) {
+	for _, c := range conjuncts(q) {
+		if c.hasQ && x.dry == 0 {
+			b := Fresh("pl", "Bool")
+			x.facts = append(x.facts, Implies(b, c))
+			st.pc = And(st.pc, b)
+		} else {
+			st.pc = And(st.pc, c)
+		}
+	}
 }
 
 func (x *Exec) oblige(st *State, kind, label, site string, goal *Term, note string) {
@@ -253,6 +270,7 @@ func (x *Exec) runFunction(st *State, fn *ssa.Function, args []Value, clo *Closu
 	}
 	if con != nil && parent == nil {
 		fr.nopanic = con.NoPanic
+		fr.modRegions = x.pendingRegions
 	}
 	if fr.depth > 12 {
 		unsup("inline depth exceeded at %s", fn)
@@ -448,6 +466,12 @@ func (x *Exec) enterLoop(fr *Frame, b *ssa.BasicBlock, loop *LoopInfo, edges []e
 	}
 	// discover the write set by a dry run of the body from a fully havocked state
 	writes := x.loopWrites(fr, b, loop, st, phis)
+	fr.loopWrites(loop, writes)
+	for _, k := range sortedKeys(writes) {
+		if g := x.frameInv(fr, st, k); g != nil {
+			x.oblige(st, "inv", fmt.Sprintf("%d.frame(%s)", loop.Ordinal, k), "init", g, "implicit loop frame: locations outside the modifies clause are unchanged")
+		}
+	}
 	// havoc
 	for _, phi := range phis {
 		fr.regs[phi] = x.havocValue(st, fr.regs[phi], "loop_"+phi.Name(), phi.Type())
@@ -478,7 +502,16 @@ func (x *Exec) enterLoop(fr *Frame, b *ssa.BasicBlock, loop *LoopInfo, edges []e
 		assumed = append(assumed, x.evalInv(fr, st, loopSnap, loop, inv))
 	}
 	// frame of the enclosing function's contract is not re-assumed here; invariants carry what is needed.
-	st.pc = And(st.pc, And(assumed...))
+	if loop.RangeIx != nil {
+		// implicit: the hidden range index starts at -1 and only grows
+		assumed = append(assumed, Ge(fr.regs[loop.RangeIx].T, Int(-1)))
+	}
+	for _, k := range ws {
+		if g := x.frameInv(fr, st, k); g != nil {
+			assumed = append(assumed, g)
+		}
+	}
+	x.assumePC(st, And(assumed...))
 	fr.loopSnap(loop, loopSnap)
 	return st
 }
@@ -668,9 +701,6 @@ func (x *Exec) checkBackEdge(fr *Frame, from, head *ssa.BasicBlock, loop *LoopIn
 		return
 	}
 	invs := x.loopInvs(fr, loop)
-	if len(invs) == 0 {
-		return
-	}
 	// evaluate the invariant with the phis bound to their back-edge values
 	saved := map[*ssa.Phi]Value{}
 	idx := -1
@@ -699,6 +729,11 @@ func (x *Exec) checkBackEdge(fr *Frame, from, head *ssa.BasicBlock, loop *LoopIn
 	for i, inv := range invs {
 		g := x.evalInv(fr, st, snap, loop, inv)
 		x.oblige(st, "inv", invLabel(fr, loop, inv, i), "step", g, "")
+	}
+	for _, k := range sortedKeys(loopWriteSets[fr][loop]) {
+		if g := x.frameInv(fr, st, k); g != nil {
+			x.oblige(st, "inv", fmt.Sprintf("%d.frame(%s)", loop.Ordinal, k), "step", g, "implicit loop frame: locations outside the modifies clause are unchanged")
+		}
 	}
 	for _, phi := range phis {
 		fr.regs[phi] = saved[phi]
@@ -1319,4 +1354,69 @@ func (x *Exec) site(fr *Frame, ins ssa.Instruction) string {
 		s = relName(fn) + ":" + s
 	}
 	return s
+}
+
+var loopWriteSets = map[*Frame]map[*LoopInfo]map[string]bool{}
+
+func (fr *Frame) loopWrites(l *LoopInfo, w map[string]bool) {
+	m := loopWriteSets[fr]
+	if m == nil {
+		m = map[*LoopInfo]map[string]bool{}
+		loopWriteSets[fr] = m
+	}
+	m[l] = w
+}
+
+func sortedKeys(m map[string]bool) []string {
+	var ks []string
+	for k := range m {
+		ks = append(ks, k)
+	}
+	sort.Strings(ks)
+	return ks
+}
+
+// frameInv is the implicit loop invariant for heap array k: every location that existed at
+// the entry of the function under verification and is outside its modifies clause holds
+// its entry value.
+func (x *Exec) frameInv(fr *Frame, st *State, k string) *Term {
+	if strings.HasPrefix(k, "ghost:") || k == "alloc" {
+		return nil
+	}
+	top := fr.top
+	if top.con == nil || top.modRegions == nil {
+		return nil
+	}
+	hs := heapSorts[k]
+	h0 := top.entry.H(k, hs)
+	h1 := st.H(k, hs)
+	if h0 == h1 {
+		return nil
+	}
+	r := BoundVar("q_fr", "Int")
+	in := func(ref, idx *Term) *Term {
+		var ds []*Term
+		for _, reg := range top.modRegions {
+			if reg.Key != k {
+				continue
+			}
+			if reg.Single != nil {
+				c := Eq(ref, reg.Single.Ref)
+				if reg.Single.Idx != nil && idx != nil {
+					c = And(c, Eq(idx, reg.Single.Idx))
+				}
+				ds = append(ds, c)
+			} else {
+				ds = append(ds, reg.In(ref, idx))
+			}
+		}
+		return Or(ds...)
+	}
+	if strings.HasPrefix(k, "EH_") {
+		j := BoundVar("q_fj", "Int")
+		return Forall([]*Term{r, j}, [][]*Term{{Select(Select(h1, r), j)}},
+			Implies(And(Gt(r, Int(0)), Lt(r, top.entry.alloc), Not(in(r, j))), Eq(Select(Select(h1, r), j), Select(Select(h0, r), j))))
+	}
+	return Forall([]*Term{r}, [][]*Term{{Select(h1, r)}},
+		Implies(And(Gt(r, Int(0)), Lt(r, top.entry.alloc), Not(in(r, nil))), Eq(Select(h1, r), Select(h0, r))))
 }
